@@ -533,7 +533,7 @@ def part_orbit(ck: Check, fx: Fx, rec: CacheRecorder, dictmode: str, rnd: random
     dbg("req done")
     # (d) long random walks
     cfgs = make_cfg("OrbitObject.asis.sim.cfg", flags, wd, "OrbitObject.livesim.cfg")
-    nwalks = 120 if ck.quick else 1500
+    nwalks = 120 if ck.quick else 800
     rs = tlc(OBJ / "MCOrbitObject.tla", cfgs, simulate=f"num={nwalks}", depth=31, seed=ck.seed, workers=1, timeout=900)
     if rs.error:
         raise MachineryError(f"simulation failed: {rs.error}\n{rs.out[-2000:]}")
@@ -542,13 +542,12 @@ def part_orbit(ck: Check, fx: Fx, rec: CacheRecorder, dictmode: str, rnd: random
         raise MachineryError(f"simulation produced only {len(walks)} walks")
 
     dbg("sim done")
-    if ck.quick:
-        hists = rnd.sample(hists, min(len(hists), 1000))
-        deep = rnd.sample(deep, min(len(deep), 300))
+    hists = rnd.sample(hists, min(len(hists), 1000 if ck.quick else 8000))
+    deep = rnd.sample(deep, min(len(deep), 300 if ck.quick else 2000))
     jobs = [("lyapunov", h) for h in hists] + [("lyapunov", h) for h in deep] + [("lyapunov", h) for h in walks]
     if "halo" in worlds:
-        sub = rnd.sample(hists, min(len(hists), 3000))
-        jobs += [("halo", h) for h in sub] + [("halo", h) for h in walks[: len(walks) // 3]]
+        sub = rnd.sample(hists, min(len(hists), 1500))
+        jobs += [("halo", h) for h in sub] + [("halo", h) for h in walks[: len(walks) // 4]]
 
     traces, viol, notes = [], {}, {"model_stale_real_fresh": 0, "model_fresh_real_stale": 0, "hit_pred_mismatch": 0}
     t0 = time.time()
@@ -760,6 +759,21 @@ class ManifoldWorld(SmallWorld):
     def caches_of(self, h):
         return [h["m"].dynamics._cache]
 
+    def live_flags(self):
+        """which transcription variant the working tree implements (micro-probes on real objects)"""
+        h = self._pair("T")
+        a = self.do(h, "Compute", ["cA"])
+        self.do(h, "Compute", ["cB"])
+        self.do(h, "Compute", ["cA"])
+        f = {"ResultOnHit": self.do(h, "ReadResult", []) == a}
+        h = self._pair("T")
+        self.do(h, "ComputeStm", ["n1"])
+        self.do(h, "OrbitSetPeriod", ["P1"])
+        m = self.rec.mark()
+        self.do(h, "ComputeStm", ["n1"])
+        f["KeyHasOrbitState"] = self.top_hit({id(c) for c in self.caches_of(h)}, self.rec.since(m)) == "M"
+        return f
+
     def do(self, h, op, arg):
         m = h["m"]
         try:
@@ -872,6 +886,12 @@ class SystemWorld(SmallWorld):
     def caches_of(self, h):
         return [h["sys"].dynamics._cache, h["pt"].dynamics._cache]
 
+    def live_flags(self):
+        h = self.new_real()
+        a = self.do(h, "ComputeStability", ["1"])
+        self.do(h, "ComputeStability", ["2"])
+        return {"PipelinePerKey": self.do(h, "ComputeStability", ["1"]) == a}
+
     def do(self, h, op, arg):
         try:
             if op == "Propagate":
@@ -910,8 +930,23 @@ class CMWorld(SmallWorld):
     PT = np.array([0.01, 0.0, 0.005, 0.0])
     CHEAP = {"SetDegree", "ReadDegree", "PointGetDegree"}
 
+    heavy = False      # thorough tier: histories with cm.hamiltonian(d) on one shared libration point
+
     def L0(self, init):
         return (init,)
+
+    def enable_heavy(self):
+        """cm.hamiltonian(d) needs the degree-d normal form (minutes of numba compilation and Lie series the
+        first time).  Real histories then share ONE libration point (its service cache is emptied before each
+        history; the process-wide pipeline registry keeps the computed normal forms), and the value a freshly
+        constructed CenterManifold(point, d).hamiltonian(d) returns is computed once per d."""
+        from hiten.system.center import CenterManifold
+        self.heavy = True
+        self.pt_real = self.fx.L1
+        self.href = {}
+        for name, d in self.DEG.items():
+            H = CenterManifold(self.pt_real, d).hamiltonian(d)
+            self.href[name] = stamp((int(H.degree), [np.asarray(b) for b in H.poly_H]))
 
     def _point(self):
         # a private libration point per history: the point caches the CM objects it hands out
@@ -919,11 +954,16 @@ class CMWorld(SmallWorld):
         return System.from_bodies("earth", "moon").get_libration_point(1)
 
     def new_real(self, init):
-        pt = self._point()
+        if self.heavy:
+            pt = self.pt_real
+            pt.dynamics.reset()
+        else:
+            pt = self._point()
         return {"pt": pt, "cm": pt.get_center_manifold(self.DEG[init])}
 
     def fresh(self, L):
-        return self.new_real(L[0])
+        pt = self._point()
+        return {"pt": pt, "cm": pt.get_center_manifold(self.DEG[L[0]])}
 
     def caches_of(self, h):
         return [h["cm"].dynamics._cache, h["pt"].dynamics._cache]
@@ -974,17 +1014,22 @@ class CMWorld(SmallWorld):
         # requirement-level meaning of cm.hamiltonian(d): returns H(d); the object's degree is what the
         # user set.  (On a fresh object the library moves the degree to d; whether that side effect is
         # intended is reported separately, see diagnose.)
-        out, L2, obs = super().twin_step(L, op, arg, memo)
         if op == "Hamiltonian":
-            obs = (self.DEG[L[0]],)
-        return out, L2, obs
+            if not self.heavy:
+                raise MachineryError("cm.hamiltonian histories need enable_heavy()")
+            return ("val", self.href[arg[0]]), L, (self.DEG[L[0]],)
+        return super().twin_step(L, op, arg, memo)
 
 
 def part_small(ck: Check, world: SmallWorld, mcspec: str, cfg_live: str, cfg_repaired: str, rnd, *,
                budget: int, keep=None, flags=None, wd=None):
     r = tlc(OBJ / mcspec, CFG / cfg_repaired, timeout=900, workers=8)
     ck.model(cfg_repaired[:-4], r)
-    cfg = make_cfg(cfg_live, flags or {}, wd or workdir("c20s"), cfg_live)
+    flags = dict(flags or {})
+    if hasattr(world, "live_flags"):
+        flags.update(world.live_flags())
+        ck.part(world.name + "_replay", live_flags={k: v for k, v in flags.items()})
+    cfg = make_cfg(cfg_live, flags, wd or workdir("c20s"), cfg_live)
     r = tlc(OBJ / mcspec, cfg, timeout=900, workers=1)
     ck.model(cfg_live[:-4] + ".live", r)
     hists = drop_prefixes([h for h in r.printed() if isinstance(h, list)])
@@ -1028,11 +1073,13 @@ def part_small(ck: Check, world: SmallWorld, mcspec: str, cfg_live: str, cfg_rep
         raise MachineryError(f"{world.name}: twin oracle is not deterministic")
 
 
-WORLDS = {"manifold": ManifoldWorld, "system": SystemWorld, "cm": CMWorld}
+WORLDS = {"manifold": ManifoldWorld, "system": SystemWorld, "cm": CMWorld, "cm_hamiltonian": CMWorld}
 
 
 def replay_small(fx, rec, data) -> bool:
     w = WORLDS[data["object"]](fx, rec, workdir("c20r"))
+    if data["object"] == "cm_hamiltonian" or any(o == "Hamiltonian" for o, _ in data["history"]):
+        w.enable_heavy()
     events, problems = w.replay([{"op": o, "arg": a} for o, a in data["history"]], data.get("init"))
     print(json.dumps({"events": events, "problems": problems}, indent=1, default=str))
     return bool(problems)
@@ -1072,9 +1119,17 @@ def main(tier=None, replay=None):
         part_small(ck, SystemWorld(fx, rec, wd), "MCSystemObject.tla", f"SystemObject.asis.{ck.tier}.cfg",
                    "SystemObject.repaired.cfg", rnd, budget=400 if q else 2000, flags=dm, wd=wd)
         dbg("system done")
-        part_small(ck, CMWorld(fx, rec, wd), "MCCMObject.tla", "CMObject.asis.cfg", "CMObject.repaired.cfg", rnd,
-                   budget=300 if q else 1000, flags=dm, wd=wd,
-                   keep=(lambda h: all(s["op"] in CMWorld.CHEAP for s in h)) if q else None)
+        cmw = CMWorld(fx, rec, wd)
+        part_small(ck, cmw, "MCCMObject.tla", "CMObject.asis.cfg", "CMObject.repaired.cfg", rnd,
+                   budget=300, flags=dm, wd=wd, keep=lambda h: all(s["op"] in CMWorld.CHEAP for s in h))
+        if not q:
+            cmw.enable_heavy()
+            dbg("cm normal forms ready")
+            cmw.name = "cm_hamiltonian"
+            heavy_ops = CMWorld.CHEAP | {"Hamiltonian"}      # (save() evaluates cm.hamsys: it computes the normal form)
+            part_small(ck, cmw, "MCCMObject.tla", "CMObject.asis.cfg", "CMObject.repaired.cfg", rnd,
+                       budget=150, flags=dm, wd=wd,
+                       keep=lambda h: all(s["op"] in heavy_ops for s in h) and any(s["op"] == "Hamiltonian" for s in h))
         dbg("cm done")
 
     ck.cov["rule"] = ("histories = one shortest history per distinct state of the TLC model of the working tree "
@@ -1095,7 +1150,8 @@ def main(tier=None, replay=None):
     return ck.finish()
 
 
-REPLAYERS = {"orbit": replay_orbit, "manifold": replay_small, "system": replay_small, "cm": replay_small}
+REPLAYERS = {"orbit": replay_orbit, "manifold": replay_small, "system": replay_small, "cm": replay_small,
+             "cm_hamiltonian": replay_small}
 
 if __name__ == "__main__":
     sys.exit(main())
